@@ -199,30 +199,37 @@ func runC03(c *Ctx) {
 			if !isBo || !f.Val || bo.Op != token.LSS || !isCellLoad(bo.Y) {
 				continue
 			}
-			phi, isPhi := bo.X.(*ssa.Phi)
-			if !isPhi || len(phi.Edges) != 2 {
+			// classic φ[0, φ+1] or the rotated `for range n` form (index = φ+1 with φ[-1, φ+1])
+			if !rangeIndexValue(bo.X) {
 				continue
 			}
-			// φ[0, φ+1], increment once per iteration in the body that contains the go
-			zero, inc := phi.Edges[0], phi.Edges[1]
-			if _, isC := constInt(zero); !isC {
-				zero, inc = inc, zero
+			phi, isPhi := bo.X.(*ssa.Phi)
+			if !isPhi {
+				phi, _ = bo.X.(*ssa.BinOp).X.(*ssa.Phi)
 			}
-			z, isC := constInt(zero)
-			add, isAdd := inc.(*ssa.BinOp)
-			if isC && z == 0 && isAdd && add.Op == token.ADD && add.X == ssa.Value(phi) {
-				if one, isOne := constInt(add.Y); isOne && one == 1 {
-					// exactly one go-worker per iteration: the go's block loops back to the header
-					if add.Block() == g.blk || g.blk.Dominates(add.Block()) {
-						ok = true
-					}
-				}
+			if phi == nil || len(phi.Edges) != 2 {
+				continue
+			}
+			// exactly one go-worker per iteration: the go's block is inside the loop headed by the φ
+			if loopHeaderOf(g.blk) == phi.Block() {
+				ok = true
 			}
 			// the clamp must precede the loop
 			for _, st := range storesAttack {
 				if phi.Block().Dominates(st.Block()) {
 					ok = false
 					why = "a store to the counter does not precede the spawn loop"
+				}
+			}
+		}
+		if !ok {
+			// `for range n` over an integer: do-while shape, body φ[0, φ+1] entered under 0 < n and repeated under φ+1 < n
+			if n := rangeIntBound(g.blk); n != nil && isCellLoad(n) {
+				ok = true
+				for _, st := range storesAttack {
+					if g.blk.Dominates(st.Block()) {
+						ok, why = false, "a store to the counter does not precede the spawn loop"
+					}
 				}
 			}
 		}
@@ -1145,4 +1152,57 @@ func runC05(c *Ctx) {
 		})
 		c.Check(okE, keyEnd, rEnd, "Timestamp.Add(Latency)", "End is not Timestamp.Add(Latency)", c.fnAt(end))
 	}
+}
+
+// rangeIntBound recognises the body block of `for range n` / `for i := range n` over an integer
+// (go/ssa's rotated form): a φ[0, φ+1] whose every incoming edge is the true edge of `x < n` with
+// x the value the φ takes on that edge. It returns n.
+func rangeIntBound(b *ssa.BasicBlock) ssa.Value {
+	for _, in := range b.Instrs {
+		phi, ok := in.(*ssa.Phi)
+		if !ok {
+			break
+		}
+		if len(phi.Edges) != len(b.Preds) {
+			continue
+		}
+		var bound ssa.Value
+		good := true
+		sawZero, sawInc := false, false
+		for k, e := range phi.Edges {
+			p := b.Preds[k]
+			ifi, isIf := p.Instrs[len(p.Instrs)-1].(*ssa.If)
+			if !isIf || p.Succs[0] != b {
+				good = false
+				break
+			}
+			cmp, isCmp := ifi.Cond.(*ssa.BinOp)
+			if !isCmp || cmp.Op != token.LSS {
+				good = false
+				break
+			}
+			if z, isZ := constInt(e); isZ && z == 0 {
+				if zz, isZZ := constInt(cmp.X); !isZZ || zz != 0 {
+					good = false
+				}
+				sawZero = true
+			} else if add, isAdd := e.(*ssa.BinOp); isAdd && add.Op == token.ADD && add.X == ssa.Value(phi) && cmp.X == e {
+				if one, isOne := constInt(add.Y); !isOne || one != 1 {
+					good = false
+				}
+				sawInc = true
+			} else {
+				good = false
+			}
+			if bound == nil {
+				bound = cmp.Y
+			} else if bound != cmp.Y {
+				good = false
+			}
+		}
+		if good && sawZero && sawInc {
+			return bound
+		}
+	}
+	return nil
 }
